@@ -126,7 +126,17 @@ def handleTyped (op : String) (args : List String) : Option String :=
     else do let a ← parseArr? a; some (showRes showNatArr (Sort.argExtreme Cmp.int 0 false a ax kd))
   | _, _ => none
 
+/-- typed case lines that end in `ref` are beyond the reach of the list-backed model (16 384 … 140 000 elements, or an axis
+sweep the quadratic `applyAlongAxis` would need minutes for): the driver does not answer them, it says `ref`, and the harness
+judges the real result against its native reference (lane membership by coordinate arithmetic + the standard library's stable
+sort / first extreme), which the harness compares with the answers of THIS model on every other case of the same run
+(`refstats` reports how many).  The array token is not even parsed here (it may be a generator spelling). -/
+def isRefLine (op : String) (args : List String) : Bool :=
+  args.getLast? == some "ref" && ["tsort", "targsort", "targmax", "targmin"].contains op && args.length == 5
+
 def handle (op : String) (args : List String) : Option String :=
+  if op == "refstats" then some "ref" else
+  if isRefLine op args then some "ref" else
   match op, args with
   | "sort", [a, ax, k] => do
     let a ← parseArr? a; let ax ← parseOpt? parseInt? ax; let k ← parseKindArg? k
